@@ -448,6 +448,87 @@ fn program_case(ctx: &mut Ctx, plan: &Plan, program: bool, tag: &str) {
     }
 }
 
+/// Oracle only (no model op): committed programs in which one witness / disconnect node *object*,
+/// or a sub-expression containing one, is used twice in the same typing context (both uses have
+/// the same arrow: `pair w w`, `pair S S`).  `from_program` names each use on its own; the text must
+/// parse back to the same CMR, types and encoding.
+fn shared_witness_case(ctx: &mut Ctx, plan: &Plan, tag: &str) {
+    shared_witness_case_k(ctx, plan, tag, None)
+}
+
+/// `known`: the class under which a rejected type annotation is reported (the known finding for
+/// one witness object whose two uses sit in *different* typing contexts)
+fn shared_witness_case_k(ctx: &mut Ctx, plan: &Plan, tag: &str, known: Option<&'static str>) {
+    let line = format!("renderS P {}", plan.text());
+    let commit = match catch(|| gen::commit_of_plan(plan, None, true)) {
+        Ok(Ok(c)) => c,
+        Ok(Err(_)) => return ctx.count("skipped:shared-witness-ill-typed"),
+        Err(p) => return ctx.fail("panic-construct", &line, &p),
+    };
+    let forest = match catch(|| Forest::from_program(commit.clone())) {
+        Ok(f) => f,
+        Err(p) => return ctx.fail("panic-render", &line, &p),
+    };
+    ctx.case(Some(&line));
+    if std::env::var("VERIF_DEBUG").is_ok() {
+        eprintln!("{}", forest.string_serialize());
+    }
+    match catch(|| round_trip(&forest, None)) {
+        Err(p) => ctx.fail("panic-reparse", &line, &p),
+        Ok(Err((class, detail))) => {
+            let class = match known {
+                Some(k) if class == "rendered-annotation-rejected" => k,
+                _ => class,
+            };
+            ctx.fail(class, &line, &detail)
+        }
+        Ok(Ok(_)) => ctx.count(&format!("reach:shared-witness-object-{tag}")),
+    }
+}
+
+fn shared_witness_family(ctx: &mut Ctx) {
+    use PNode::*;
+    let close = |mut nodes: Vec<PNode>, a: usize| {
+        nodes.push(Unit);
+        let u = nodes.len() - 1;
+        nodes.push(Comp(a, u));
+        Plan { nodes }
+    };
+    // pair w w, w of free type and of pinned types
+    shared_witness_case(ctx, &close(vec![Witness, Pair(0, 0)], 1), "pair-w-w");
+    for _ in 0..ctx.scale(6, 60) {
+        let d = 1 + ctx.rng.below(3) as usize;
+        let t = gen::gen_t(&mut ctx.rng, d);
+        if t.size() > 24 {
+            continue;
+        }
+        let mut rng = ctx.rng.fork();
+        let mut g = gen::PlanGen::new(&mut rng, GenCfg { pin_witness: true, ..GenCfg::default() });
+        g.witness_of(&t); // the last node pushed: `comp witness pin_t` (or the bare witness)
+        let mut nodes = g.finish().nodes;
+        let w = nodes.len() - 1;
+        nodes.push(Pair(w, w));
+        let a = nodes.len() - 1;
+        shared_witness_case(ctx, &close(nodes, a), "pair-pinned");
+    }
+    // S = comp (pair witness word8) lt_8, used twice
+    let s = vec![Witness, Word(3, vec![true, false, true, false, false, true, true, false]), Pair(0, 1), Jet(Elements::Lt8), Comp(2, 3)];
+    let mut nodes = s.clone();
+    nodes.push(Pair(4, 4));
+    shared_witness_case(ctx, &close(nodes, 5), "pair-s-s");
+    let mut nodes = s.clone();
+    nodes.extend([InjL(4), InjR(4), Pair(5, 6)]);
+    shared_witness_case(ctx, &close(nodes, 7), "injl-injr-s");
+    // one witness object whose uses constrain it differently (`comp const w` forces the source, `take w`
+    // does not): each rendered copy carries the object's arrow, which the second copy does not have
+    // on its own, and annotations in `main` are checks, not constraints — known finding
+    let nodes = vec![Word(1, vec![true, true]), Witness, Comp(0, 1), Witness, Unit, Pair(3, 4), Take(1), Comp(5, 6), Pair(2, 7)];
+    shared_witness_case_k(ctx, &close(nodes, 8), "different-contexts", Some("shared-witness-object-not-renderable"));
+    // a disconnect hole used twice
+    let nodes = vec![Iden, Unit, Pair(0, 1), Disconnect(2, None), Pair(3, 3)];
+    shared_witness_case(ctx, &close(nodes, 4), "pair-disconnect");
+}
+
 /// `parse` op: the implementation's verdict on a text of the flat grammar
 fn parse_op(ctx: &mut Ctx, text: &str, jets: &str, kind: &str) {
     if text.len() > 60_000 {
@@ -1220,6 +1301,9 @@ fn arbitrary_case(ctx: &mut Ctx, text: &str, tag: &str) {
     match r {
         Err(p) => ctx.fail("panic-parse", &case, &p),
         Ok(Err(e)) => {
+            if std::env::var("VERIF_DEBUG").is_ok() {
+                eprintln!("{e}");
+            }
             let k = err_kinds(&e);
             if k.is_empty() {
                 ctx.fail("empty-error-list", &case, "Err with no error in it");
@@ -1500,6 +1584,7 @@ pub fn run(ctx: &mut Ctx) {
     }
     arbitrary(ctx, &seeds);
     finding_probes(ctx);
+    shared_witness_family(ctx);
     // source texts whose names look like the Namer's
     for it in 0..ctx.scale(60, 1200) {
         let cfg = GenCfg { pin_witness: it % 2 == 0, ..GenCfg::default() };
@@ -1537,6 +1622,11 @@ pub fn replay(ctx: &mut Ctx, case: &str) {
         return;
     }
     match toks[0] {
+        "renderS" if toks.len() > 2 => {
+            if let Some((plan, _)) = Plan::parse(&toks[2..]) {
+                shared_witness_case(ctx, &plan, "replay");
+            }
+        }
         "render" if toks.len() > 2 => {
             if let Some((plan, _)) = Plan::parse(&toks[2..]) {
                 program_case(ctx, &plan, toks[1] == "P", "replay");
